@@ -45,6 +45,11 @@ def case_strategy(draw):
         cx, cy = (bb[0] + bb[2]) // 2, (bb[1] + bb[3]) // 2
         s = max(4, min(bb[2] - bb[0], bb[3] - bb[1]) // 8)
         B[0] = draw(gk.simple_polygon(size=s, snap=max(1, snap // 8), center=(cx, cy)))
+    empty = draw(st.integers(0, 11))
+    if empty == 0 and not nested:
+        A = []          # an empty operand is the empty set: OR/XOR give the other group, AND/NOT nothing (or A itself)
+    elif empty == 1 and not nested:
+        B = []
     feedback = draw(st.sampled_from([None, None, None, "not", "xor", "or"]))
     D = group(draw(st.integers(1, 3))) if feedback else []
     return {"scaling": scaling, "offset": [ox, oy], "A": A, "B": B, "feedback": feedback, "D": D}
@@ -238,7 +243,7 @@ def finish(ctx, case, classes, samples, cands, fb, scaling, res):
     ctx.stats.count("candidates_in_band", (len(cands) - len(samples)) * 4)
     labels.append("feedback_" + str(fb))
     labels.append("scaling_%g" % scaling)
-    labels.append("size_2^%d" % max(0, int(math.log2(max(1, max(abs(c) for p in case["A"] for q in p for c in q))))))
+    labels.append("size_2^%d" % max(0, int(math.log2(max(1, max([abs(c) for p in case["A"] + case["B"] for q in p for c in q] + [1]))))))
     if any(len(r["result"]) and any(len(p["pts"]) > 0 for p in r["result"]) for r in res[:4]):
         labels.append("nonempty_result")
     ctx.stats.note(case, nontrivial, labels)
